@@ -23,11 +23,14 @@ theorem tie_defaults :
     Jap.Gen.SaveOrder.multifileDefault = ({ path := "", dump := .text "" } : Input).multifile := by decide
 theorem tie_check_overwrite :
     Jap.Gen.SaveOrder.checkOverwriteTest = "not overwrite and os.path.isfile(path.absolute)" := by decide
+/-- the raising tests of `Path(mode="..c..")`, as the model's `pathFc` reads them: parent directory missing,
+    parent not writeable, existing path that is neither a regular file nor a FIFO (since fix 5706b13 an existing
+    FIFO passes `fc`; FIFO targets are OUTSIDE the model, see `Env.nonFile`) -/
 theorem tie_path_creatable :
     Jap.Gen.SaveOrder.pathCreatableChecks =
       ["not os.path.isdir(pdir)", "not os.access(pdir, os.W_OK)",
        "'d' in mode and os.access(abs_path, os.F_OK) and (not os.path.isdir(abs_path))",
-       "'f' in mode and os.access(abs_path, os.F_OK) and (not os.path.isfile(abs_path))"] := by decide
+       "'f' in mode and os.access(abs_path, os.F_OK) and (not (os.path.isfile(abs_path) or is_fifo(abs_path)))"] := by decide
 
 /-! ## no silent overwrite -/
 
